@@ -194,6 +194,8 @@ def main(chk, replay=None):
             if lab is not None:
                 chk.violation('C08/%s/%s' % (label, lab), {'gate': gate, 'scenario': scn}, exp, obs)
     ellipse_observation(chk, 20 if chk.quick else 400)
+    from harness import session
+    session.run(chk, 'C08')          # spec/Session.tla: the property inside whole analysis sessions
     chk.exhaustive = True
 
 
